@@ -63,10 +63,10 @@ _p('C04', 'other',
    'DESIGN.md section 6 (C04)')
 
 _p('C05', 'proof',
-   'Richardson: the k-th iterate is k repetitions of { s = P r; x = damping*s + 1*x; r = rhs - A x; ||r|| } after one initial residual (call-sequence contract, inductive, any k); preonly: exactly one P.apply(rhs, x).',
-   'Decides the Richardson / preonly clause only. Not decided: A-norm optimality of CG, residual minimisation of GMRES/FGMRES/LGMRES, agreement with a dense reference, finite termination (real/floating-point vector algebra).',
+   'Richardson: the k-th iterate is k repetitions of { s = P r; x = damping*s + 1*x; r = rhs - A x; ||r|| } after one initial residual (call-sequence contract, inductive, any k); preonly: exactly one P.apply(rhs, x). For CG, BiCGStab, BiCGStab(L), GMRES, FGMRES, LGMRES and IDR(s) the solver contracts pin the DATA-FLOW SKELETON of the iterates only: which vectors are combined into x and when (e.g. GMRES family: x advanced once per restart cycle by lin_comb over the Krylov basis written in this call; budget; no vector of an earlier call enters).',
+   'Decides the Richardson / preonly clause and the data-flow skeleton of the other methods. Not decided: A-norm optimality of CG, residual minimisation of GMRES/FGMRES/LGMRES, agreement with a dense reference, finite termination (real/floating-point vector algebra: the values of the Hessenberg / small-system coefficients are not tracked).',
    TECH_PROOF,
-   ['Richardson returns x + omega P (f - A x) repeated k times (as a call sequence)', 'preonly is one preconditioner application'],
+   ['Richardson returns x + omega P (f - A x) repeated k times (as a call sequence)', 'preonly is one preconditioner application', 'Krylov solvers: which vectors are combined into x, once per cycle / step, from data of this call only'],
    ['CG / GMRES optimality', 'agreement with dense reference', 'finite termination'],
    'DESIGN.md section 6 (C05)')
 
